@@ -704,6 +704,9 @@ package loadbalancer
 //@ ghost var lastDialTimeout Int
 //@ ghost var lastHeaderTimeout Int
 //@ ghost var lastIdleTimeout Int
+// (C01: with DisableCompression unset Go's transport adds "Accept-Encoding: gzip" to requests that carry none and
+// transparently decodes the answer: the backend sees a header the client never sent, the client a re-framed body.)
+//@ ghost var lastTransportTransparent Bool
 // (C01: the proxy of a new backend is the stock single-host reverse proxy - its request rewriting is the
 // library's; Helios installs a transport and an error handler only.)
 //@ func (*LoadBalancer).AddBackend
@@ -714,7 +717,9 @@ package loadbalancer
 //@   ghost before AddBackend :: lastDialTimeout := dialTimeout
 //@   ghost before AddBackend :: lastHeaderTimeout := transport.ResponseHeaderTimeout
 //@   ghost before AddBackend :: lastIdleTimeout := transport.IdleConnTimeout
+//@   ghost before AddBackend :: lastTransportTransparent := transport.DisableCompression
 //@   ensures backend_timeouts_positive: result == nil ==> lastDialTimeout > 0 && lastHeaderTimeout > 0 && lastIdleTimeout > 0
+//@   ensures backend_transport_neither_negotiates_nor_decodes_compression: result == nil ==> lastTransportTransparent
 //@   ensures added_is_listed_and_eligible: result == nil ==> exists b *Backend :: inPool(lb, b) && fresh(b) && b.Name == backendCfg.Name && b.IsHealthy
 //@             && b.Weight == max(1, backendCfg.Weight) && b.ActiveConnections == 0 && b.ReverseProxy != nil
 //@             && b.ReverseProxy.Director == stockDirector(ptr(b.ReverseProxy)) && b.ReverseProxy.Rewrite == nil && b.ReverseProxy.ModifyResponse == nil
@@ -736,7 +741,7 @@ package loadbalancer
 //@   ensures pool_entries_non_nil: poolNonNil(lb)
 //@   modifies RoundRobinStrategy.backends, LeastConnectionsStrategy.backends, WeightedRoundRobinStrategy.backends, IPHashStrategy.backends, IPHashConsistentStrategy.backends,
 //@            key:[]*loadbalancer.Backend, key:[]*loadbalancer.weightedBackend, mapof(lb.metricsCollector.metrics.BackendMetrics), metrics.BackendMetrics.IsHealthy, metrics.BackendMetrics.LastHealthCheck,
-//@            lastDialTimeout, lastHeaderTimeout, lastIdleTimeout
+//@            lastDialTimeout, lastHeaderTimeout, lastIdleTimeout, lastTransportTransparent
 //@ loop (*LoadBalancer).AddBackend #0
 //@   props C11 C05 C03 C12
 //@   invariant idx: rangeindex < len(ranged)
@@ -942,4 +947,4 @@ package loadbalancer
 //@   decreases len(ranged) - rangeindex
 //@   modifies RoundRobinStrategy.backends, LeastConnectionsStrategy.backends, WeightedRoundRobinStrategy.backends, IPHashStrategy.backends, IPHashConsistentStrategy.backends,
 //@            key:[]*loadbalancer.Backend, key:[]*loadbalancer.weightedBackend, mapof(lb.metricsCollector.metrics.BackendMetrics), metrics.BackendMetrics.IsHealthy, metrics.BackendMetrics.LastHealthCheck,
-//@            lastDialTimeout, lastHeaderTimeout, lastIdleTimeout
+//@            lastDialTimeout, lastHeaderTimeout, lastIdleTimeout, lastTransportTransparent
